@@ -87,9 +87,9 @@ const char* SkipToMatchingQuote(const char* s) {
   assert((*s == '\'') || (*s == '"'));
   char quote = s[0];
   ++s;
-  while (*s != quote)
+  while (*s && *s != quote)   // stop at the end of an unterminated string
     ++s;
-  return ++s;
+  return *s ? s + 1 : s;
 }
 
 struct Deleter {
@@ -281,7 +281,9 @@ std::string OptionHelper<std::string>::Parse(const char *&s, bool splitString) {
   if (quoted(s))
   {
     s = SkipToMatchingQuote(s);
-    return std::string(start + 1, s - start - 2);
+    if (s - start >= 2 && s[-1] == *start)          // properly terminated
+      return std::string(start + 1, s - start - 2);
+    return std::string(start + 1, s - start - 1);   // unterminated: the rest
   }
   else
   {
